@@ -145,9 +145,14 @@ def item_text(name, i):
         return f'F{i}:payload-{i}-{"x" * (i % 3)}\n'
     if name == 'ifs':
         return f'#if C{i}\n'
-    return f'L{i};\n' if name == 'lines' else f'# {i + 1} "f{i}.h"\n'
+    if name == 'lines':
+        # old-Mac line ends: Python's text mode ends a line at a bare carriage return too, so such a line is an instance
+        cr = LINE_END[0] == 'cr-all' or (LINE_END[0] == 'cr-alt' and i % 2 == 0)
+        return f'L{i};' + ('\r' if cr else '\n')
+    return f'# {i + 1} "f{i}.h"\n'
 
 
+LINE_END = ['lf']          # 'lf' | 'cr-alt' (every other line of the lines pass ends in a bare CR) | 'cr-all'
 FINAL_NEWLINE = [True]     # the variant without a terminating newline on the last line is run as well
 
 
@@ -173,9 +178,9 @@ def build_file(name, n):
 
 def items_of(name, n, text):
     present = []
-    lines = text.split('\n')
+    lines = text.replace('\r', '\n').split('\n')
     for i in range(n):
-        if item_text(name, i).rstrip('\n') in lines:
+        if item_text(name, i).rstrip('\r\n') in lines:
             present.append(i)
     return present
 
@@ -226,7 +231,7 @@ def run_pass_case(ctx, name, n, test_items, wd, vmode='b'):
 
 
 def judge_pass_case(ctx, name, n, label, loop, final, final_text, required, test_items):
-    scen = {'kind': 'pass', 'pass': name, 'n': n, 'test': label, 'final_newline': FINAL_NEWLINE[0]}
+    scen = {'kind': 'pass', 'pass': name, 'n': n, 'test': label, 'final_newline': FINAL_NEWLINE[0], 'line_end': LINE_END[0]}
     if loop.timed_out:
         ctx.report('no-termination', f'{name} did not finish within {loop.max_steps} candidates', scen)
         return
@@ -257,8 +262,9 @@ def judge_pass_case(ctx, name, n, label, loop, final, final_text, required, test
         # everything that is not an instance must be untouched (ifs: a resolved `#if 0` takes its block along, judged by the
         # instances only)
         expect = final_text if name == 'ifs' else ''.join(l for l in build_file(name, n).splitlines(keepends=True)
-                         if not any(l.rstrip('\n') == item_text(name, j).rstrip('\n') for j in range(n) if j not in required))
-        if final_text != expect:
+                         if not any(l.rstrip('\r\n') == item_text(name, j).rstrip('\r\n') for j in range(n) if j not in required))
+        # (text mode turns a bare CR into LF when the candidate is written: F8, judged in C07; here only the instances count)
+        if final_text.replace('\r', '\n') != expect.replace('\r', '\n'):
             ctx.report('non-instance-text-changed', f'{name}: text outside the removed instances changed', scen)
             return
     if not accepted_any:
@@ -287,9 +293,13 @@ def hash_pred(seed, density):
 def part_passes(ctx, diffs, deep=False):
     nmax = (7 if ctx.tier == 'quick' else 10) + (1 if deep else 0)
     lines, reals, scens = [], [], []
-    for name, nl in (('lines', True), ('line_markers', True), ('lines', False), ('line_markers', False), ('gcda', True), ('ifs', True)):
+    for name, nl in (('lines', True), ('line_markers', True), ('lines', False), ('line_markers', False), ('gcda', True), ('ifs', True),
+                     ('lines', 'cr-alt'), ('lines', 'cr-all')):
+        LINE_END[0] = nl if isinstance(nl, str) else 'lf'
+        cr_variant = isinstance(nl, str)
+        nl = True if cr_variant else nl
         FINAL_NEWLINE[0] = nl
-        for n in range(0, (nmax if nl and name not in ('gcda', 'ifs') else 5) + 1):
+        for n in range(0, (nmax if nl and not cr_variant and name not in ('gcda', 'ifs') else 5) + 1):
             for mask in range(1 << n):
                 req = [i for i in range(n) if mask >> i & 1]
                 ti = (lambda its, req=req: all(r in its for r in req))
@@ -322,9 +332,10 @@ def part_passes(ctx, diffs, deep=False):
                     continue
                 lines.append(f'binrun {n} {enc_list(req)}')
                 reals.append(trace_str(loop, final))
-                scens.append({'kind': 'pass', 'pass': name, 'n': n, 'required': req, 'final_newline': nl})
-        if not nl:
+                scens.append({'kind': 'pass', 'pass': name, 'n': n, 'required': req, 'final_newline': nl, 'line_end': LINE_END[0]})
+        if not nl or cr_variant:
             FINAL_NEWLINE[0] = True
+            LINE_END[0] = 'lf'
             continue
         # arbitrary (non-monotone) deterministic predicates
         for k in range((60 if name not in ('gcda', 'ifs') else 30) if ctx.tier == 'quick' else 600):
@@ -370,6 +381,7 @@ def replay(ctx, scen):
             req = None
             ti = hash_pred(tuple(t['hash']), t.get('density', scen.get('density', 100)))
         FINAL_NEWLINE[0] = scen.get('final_newline', True)
+        LINE_END[0] = scen.get('line_end', 'lf')
         vmode = t.get('vmode', scen.get('vmode', 'b'))
         loop, final, ftxt, table = run_pass_case(ctx, scen['pass'], scen['n'], ti, None, vmode=vmode)
         judge_pass_case(ctx, scen['pass'], scen['n'], t, loop, final, ftxt, req if vmode == 'b' else None, ti)
